@@ -1,5 +1,6 @@
 import U3.Base.Str
 import U3.Gen.Retry
+import U3.Gen.Redirect
 /-!
 # Model of `urllib3.util.retry.Retry` and of the retry loop of `HTTPConnectionPool.urlopen`
 
@@ -336,11 +337,15 @@ def increment (r : Retry) (method : Option Str) : Event → Except Raise Retry
 
 end Retry
 
-/-! ## the retry loop of `HTTPConnectionPool.urlopen`
+/-! ## the retry / redirect loop of `HTTPConnectionPool.urlopen`
 
 One scripted outcome per attempt (the server / network decides what happens to the attempt).  The
-recursion of `urlopen` is structural on the script.  Redirect responses are handled by
-`Model/Manager` (C05); here a response never carries a redirect location. -/
+recursion of `urlopen` is structural on the script.  A reply may carry a `Location` header that
+names a path on the same pool (`Outcome.located`): the pool-level redirect branch
+(`connectionpool.py` 889-926: `redirect and response.get_redirect_location()`, the 303 rewrite,
+`retries.increment(method, url, response=response)`, `raise_on_redirect`, `sleep_for_retry`, the
+recursion that passes `redirect` on) is part of the loop.  Cross-host redirects and the
+manager-level branch are `Model/Manager`'s (C05). -/
 
 inductive ConnKind where
   | timeout      -- connect() timed out                 → ConnectTimeoutError
@@ -359,17 +364,26 @@ inductive Outcome where
   | connectError (k : ConnKind)
   | readError (k : ReadKind)
   | otherError                                  -- ssl.SSLError while reading → urllib3 SSLError
-  | response (status : Nat) (retryAfter : Option Nat)
+  | response (status : Nat) (retryAfter : Option Nat)      -- a reply without a `Location` header
+  | located (status : Nat) (retryAfter : Option Nat)       -- a reply with `Location: <path on this pool>`
   deriving DecidableEq, Repr, Inhabited
 
 def Outcome.isError : Outcome → Bool
   | .response _ _ => false
+  | .located _ _ => false
   | _ => true
 
 /-- did the request go on the wire in this attempt -/
 def Outcome.sent : Outcome → Bool
   | .connectError _ => false
   | _ => true
+
+/-- `bool(response.get_redirect_location())`:
+`if self.status in self.REDIRECT_STATUSES: return self.headers.get("location")`, else `False`
+(the `Location` value of a `located` reply is a non-empty path) -/
+def Outcome.redirectLocation : Outcome → Bool
+  | .located st _ => Gen.Redirect.redirectStatuses.contains st
+  | _ => false
 
 structure Cfg where
   /-- the pool has a proxy (`conn.proxy` is set) — forwarding and tunnelling behave alike here -/
@@ -398,6 +412,7 @@ def raised : Outcome → Raised
   | .readError .garbage => ⟨.badStatusLine, true, true, false⟩
   | .otherError => ⟨.ssl, true, false, false⟩
   | .response _ _ => ⟨.protocol, false, false, false⟩      -- not an error; never consulted
+  | .located _ _ => ⟨.protocol, false, false, false⟩       -- not an error; never consulted
 
 /-- `urlopen`'s handler:
 ```
@@ -413,14 +428,29 @@ def translate (cfg : Cfg) (o : Outcome) : Err :=
   else if x.osOrHttp then .plain .protocol
   else .plain x.cls
 
+/-- what one attempt asks for: the `method`, `url` and `body` arguments of that `urlopen` entry -/
+structure Rq where
+  method : Str
+  /-- `0`: the caller's URL; `k + 1`: the `Location` of the reply to attempt `k` -/
+  target : Nat
+  /-- the caller's body is (still) sent -/
+  body : Bool
+  deriving DecidableEq, Repr, Inhabited
+
+/-- `"GET"` -/
+def strGET : Str := [71, 69, 84]
+
 inductive Result where
-  | response (status : Nat)       -- urlopen returned this response
+  /-- `urlopen` returned the reply to attempt `idx` (a script index) — that very response object,
+  with whatever the server sent for that attempt still to be read by the caller -/
+  | response (idx : Nat) (status : Nat)
   | maxRetry (c : Cause)          -- MaxRetryError with this reason
   | reraised (e : Err)            -- the (translated) error itself
   | outOfScript                   -- the script ended while urlopen wanted another attempt
   deriving DecidableEq, Repr, Inhabited
 
 structure Attempt where
+  rq : Rq
   outcome : Outcome
   /-- argument of the `time.sleep` call made after this attempt, if any -/
   sleep : Option Int
@@ -434,33 +464,84 @@ structure Run where
 def Run.outcomes (x : Run) : List Outcome := x.attempts.map (·.outcome)
 def Run.sleeps (x : Run) : List Int := x.attempts.filterMap (·.sleep)
 /-- requests put on the wire -/
-def Run.sent (x : Run) : List Outcome := x.outcomes.filter (·.sent)
+def Run.sent (x : Run) : List Attempt := x.attempts.filter (·.outcome.sent)
 /-- the attempts after which `urlopen` went round again -/
 def Run.retried (x : Run) : List Attempt :=
   if x.result = .outOfScript then x.attempts else x.attempts.dropLast
 
-def Run.stop (o : Outcome) (res : Result) : Run := ⟨[⟨o, Option.none⟩], res⟩
-def Run.cons (o : Outcome) (s : Option Int) (x : Run) : Run := ⟨⟨o, s⟩ :: x.attempts, x.result⟩
+def Run.stop (q : Rq) (o : Outcome) (res : Result) : Run := ⟨[⟨q, o, Option.none⟩], res⟩
+def Run.cons (q : Rq) (o : Outcome) (s : Option Int) (x : Run) : Run := ⟨⟨q, o, s⟩ :: x.attempts, x.result⟩
 
-/-- one `urlopen(method, url, retries=r)` call with its recursive calls -/
-def runAttempts (cfg : Cfg) (r : Retry) (method : Str) : List Outcome → Run
+/-- the request of the follow-up of a redirect answered in attempt `i`:
+```
+if response.status == 303:
+    method = "GET"; body = None; body_pos = None
+    headers = HTTPHeaderDict(headers)._prepare_for_method_change()
+...
+return self.urlopen(method, redirect_location, body, headers, ...)
+``` -/
+def redirected (q : Rq) (i : Nat) (status : Nat) : Rq :=
+  if status == 303 then ⟨strGET, i + 1, false⟩ else { q with target := i + 1 }
+
+/-- `urlopen` after the `except` clause caught the error of attempt `i` (already translated to
+`e`): `retries = retries.increment(method, url, error=new_e)`, `retries.sleep()`, and — `conn` is
+`None` now — the "try again" recursion `next` with the same request -/
+def onError (r : Retry) (q : Rq) (o : Outcome) (e : Err) (next : Retry → Rq → Run) : Run :=
+  match r.increment (some q.method) (.error e) with
+  | .error (.maxRetry c) => .stop q o (.maxRetry c)
+  | .error (.reraise e') => .stop q o (.reraised e')
+  | .ok r' => .cons q o (r'.sleep Option.none) (next r' q)
+
+/-- `urlopen` after attempt `i` received the reply `o` (status `st`, `Retry-After` `ra`): the
+redirect branch, then the status-retry branch; `next` is the recursive `urlopen` call -/
+def onReply (r : Retry) (redirect : Bool) (q : Rq) (i : Nat) (o : Outcome) (st : Nat) (ra : Option Nat)
+    (next : Retry → Rq → Run) : Run :=
+  -- `redirect_location = redirect and response.get_redirect_location()`
+  if redirect && o.redirectLocation then
+    let q' := redirected q i st
+    match r.increment (some q'.method) (.redirect st) with
+    | .error (.maxRetry c) =>
+      if r.raiseOnRedirect then .stop q o (.maxRetry c) else .stop q o (.response i st)
+    | .error (.reraise e) => .stop q o (.reraised e)     -- only MaxRetryError is caught
+    | .ok r' =>
+      -- `response.drain_conn(); retries.sleep_for_retry(response)` — not `sleep`: no backoff, and
+      -- `respect_retry_after_header` is not consulted
+      .cons q o (Retry.sleepForRetry ⟨st, ra⟩) (next r' q')
+  -- `has_retry_after = bool(response.headers.get("Retry-After"))`
+  else if r.isRetry q.method st ra.isSome then
+    -- `increment(method, url, response=response)` looks at `get_redirect_location()` itself
+    match r.increment (some q.method) (if o.redirectLocation then .redirect st else .status st) with
+    | .error (.maxRetry c) =>
+      if r.raiseOnStatus then .stop q o (.maxRetry c) else .stop q o (.response i st)
+    | .error (.reraise e) => .stop q o (.reraised e)     -- only MaxRetryError is caught
+    | .ok r' => .cons q o (r'.sleep (some ⟨st, ra⟩)) (next r' q)
+  else .stop q o (.response i st)
+
+/-- `urlopen(method, url, body, retries=r, redirect=redirect)` once `retries` is a `Retry`, with
+its recursive calls; `i` is the number of attempts made so far (= the script index of the next
+outcome), `q` the request of this entry.  Every recursive call hands `redirect` on. -/
+def runAttempts (cfg : Cfg) (r : Retry) (redirect : Bool) (q : Rq) (i : Nat) : List Outcome → Run
   | [] => ⟨[], .outOfScript⟩
   | o :: rest =>
+    let next (r' : Retry) (q' : Rq) : Run := runAttempts cfg r' redirect q' (i + 1) rest
     match o with
-    | .response st ra =>
-      -- `has_retry_after = bool(response.headers.get("Retry-After"))`
-      if r.isRetry method st ra.isSome then
-        match r.increment (some method) (.status st) with
-        | .error (.maxRetry c) =>
-          if r.raiseOnStatus then .stop o (.maxRetry c) else .stop o (.response st)
-        | .error (.reraise e) => .stop o (.reraised e)       -- only MaxRetryError is caught
-        | .ok r' => .cons o (r'.sleep (some ⟨st, ra⟩)) (runAttempts cfg r' method rest)
-      else .stop o (.response st)
-    | _ =>
-      let e := translate cfg o
-      match r.increment (some method) (.error e) with
-      | .error (.maxRetry c) => .stop o (.maxRetry c)
-      | .error (.reraise e') => .stop o (.reraised e')
-      | .ok r' => .cons o (r'.sleep Option.none) (runAttempts cfg r' method rest)
+    | .response st ra => onReply r redirect q i o st ra next
+    | .located st ra => onReply r redirect q i o st ra next
+    | _ => onError r q o (translate cfg o) next
+
+/-- the first lines of `HTTPConnectionPool.urlopen` on a pool whose own `retries` is `dflt`:
+```
+if not isinstance(retries, Retry):
+    retries = Retry.from_int(retries, redirect=redirect, default=self.retries)
+``` -/
+def policyOf (dflt : Arg) (arg : Arg) (redirect : Bool) : Retry :=
+  match arg with
+  | .retry r => r
+  | a => Retry.fromInt a redirect dflt
+
+/-- `HTTPConnectionPool.urlopen(method, url, body, retries=arg, redirect=redirect)` -/
+def urlopen (cfg : Cfg) (dflt : Arg) (arg : Arg) (redirect : Bool) (method : Str) (body : Bool)
+    (script : List Outcome) : Run :=
+  runAttempts cfg (policyOf dflt arg redirect) redirect ⟨method, 0, body⟩ 0 script
 
 end U3.Retry
